@@ -31,6 +31,7 @@ func runC10(c *core.Ctx) {
 	c.Rule("R6", "no return between the first spawn and the final wait", 1)
 	c.Rule("R7", "per-instance slices are fresh allocations or appends", 2)
 	c.Rule("R8", "per-key counters initialised from the replication set that is iterated", 3)
+	c.Rule("R9", "DoBatch is a pure delegation to DoBatchWithOptions (no second batching path)", 1)
 	pkg := c.Prog.Pkg("ring")
 	fn := an.FindFunc(pkg, "DoBatchWithOptions")
 	rec := an.FindFunc(pkg, "batchTracker.record")
@@ -40,6 +41,19 @@ func runC10(c *core.Ctx) {
 	}
 	c.Analysed(fn.String())
 	c.Analysed(rec.String())
+	if db := an.FindFunc(pkg, "DoBatch"); db != nil {
+		c.Analysed(db.String())
+		ok, rc := false, ""
+		for _, b := range db.Graph().Blocks {
+			if r := an.ReturnOf(b); r != nil && len(r.Results) == 1 {
+				rc = db.Canon(r.Results[0])
+				ok = strings.HasPrefix(rc, "DoBatchWithOptions(p0, p1, p2, p3, p4, DoBatchOptions{") && strings.Contains(rc, "Cleanup: p5")
+			}
+		}
+		c.Check(ok && len(db.Body().List) == 1, "R9", "func=DoBatch", db.Pos(), "DoBatch = return DoBatchWithOptions(ctx, op, r, keys, callback, {Cleanup: cleanup, …}): "+rc, 1)
+	} else {
+		c.Miss("R9", "func=DoBatch", "not found")
+	}
 	g := fn.Graph()
 	sig := fn.Obj.Type().(*types.Signature)
 	keysP, optP, cbP := "", "", ""
